@@ -37,7 +37,7 @@ func main() {
 		for i := 0; i < n; i++ {
 			o := optsFromBits(bits)
 			o.Root = fmt.Sprintf("k%d", i)
-			specs = append(specs, genSpec{seed + uint64(i), o})
+			specs = append(specs, genSpec{seed: seed + uint64(i), o: o})
 		}
 		if _, err := writeModule(os.Args[2], specs); err != nil {
 			fmt.Fprintln(os.Stderr, err)
